@@ -181,4 +181,18 @@ PROPS = {
             "every probe compiles a template and therefore freezes the set, so bans are observed at the end of a history and at explicit probe steps, not after every step",
         ],
     },
+    "C10": {
+        "quick": [
+            {"test": "TestC10Chain", "checks": 30000, "shards": 3},
+            {"test": "TestC10Invalid", "checks": 2000},
+        ],
+        "thorough": [
+            {"test": "TestC10Chain", "checks": 1600000, "shards": 16},
+            {"test": "TestC10Invalid", "checks": 20000},
+        ],
+        "assumptions": [
+            "blocks nested inside an override carry names that are fresh in the chain: hierarchies whose blocks contain each other (through Super) have no defined rendering and end in the engine's nesting-depth error (C01's concern)",
+            "child templates start with the extends tag",
+        ],
+    },
 }
